@@ -289,6 +289,25 @@ fn covers_case(ctx: &mut Ctx, t: &Tab, k: usize, count: bool, tags: &str) {
     );
 }
 
+/// `covers` without the count clause, for inputs beyond the reach of the count oracle; a case
+/// whose list is longer than `cap` is recorded as `covers_skipped` (nothing claimed)
+fn covers_nocount_case(ctx: &mut Ctx, t: &Tab, k: usize, cap: usize, tags: &str) {
+    if !ctx.peek_mine() {
+        ctx.skip();
+        return;
+    }
+    let ntables = catch_unwind(AssertUnwindSafe(|| {
+        let g = fundamental_group(&t.to_partial_dsym());
+        coset_tables(g.nr_generators(), &g.relators, k).count()
+    }))
+    .unwrap_or(0);
+    if ntables > cap {
+        ctx.case("covers_skipped", tags, || format!("{} {}", t.enc(), k), || ntables.to_string());
+    } else {
+        covers_case(ctx, t, k, false, tags);
+    }
+}
+
 fn subgroup_case(ctx: &mut Ctx, t: &Tab, subs: &[Vec<isize>], tags: &str) {
     if !ctx.peek_mine() {
         ctx.skip();
@@ -540,20 +559,20 @@ fn main() {
         for (txt, k, quick) in regress {
             let t = parse_symbol(txt);
             if quick || th {
-                covers_case(&mut ctx, &t, k, false, &format!("nt regress lowindex dim={} size={} k={}", t.dim, t.size, k));
+                covers_nocount_case(&mut ctx, &t, k, 4000, &format!("nt regress lowindex dim={} size={} k={}", t.dim, t.size, k));
             }
             if th && k < 6 {
-                covers_case(&mut ctx, &t, k + 1, false, &format!("nt regress lowindex dim={} size={} k={}", t.dim, t.size, k + 1));
+                covers_nocount_case(&mut ctx, &t, k + 1, 4000, &format!("nt regress lowindex dim={} size={} k={}", t.dim, t.size, k + 1));
             }
         }
-        let (n2, n3) = if th { (240, 160) } else { (36, 24) };
+        let (n2, n3) = if th { (400, 240) } else { (90, 60) };
         for j in 0..(n2 + n3) {
             let (dim, n) = if j < n2 { (2, 6 + rng.below(3)) } else { (3, 3 + rng.below(2)) };
             if let Some(t) = random_dset(&mut rng, dim, n, true) {
                 let s = random_vs(&t, &mut rng, &[1, 2, 3, 4, 6]);
                 let k = if th { 5 + j % 2 } else { 4 };
                 let k = if dim == 3 && th { 5 } else { k };
-                covers_case(&mut ctx, &s, k, false, &format!("nt large nocount dim={} size={} k={}", dim, n, k));
+                covers_nocount_case(&mut ctx, &s, k, if th { 600 } else { 250 }, &format!("nt large nocount dim={} size={} k={}", dim, n, k));
             }
         }
     }
